@@ -17,8 +17,10 @@ META = {
             'independently of generator and model, the header must carry the block of every library source exactly once and a '
             'translation unit including it must define every function the library objects define (nm). The behaviour clause is also '
             'checked on whole processes (harness/h_header_exit.cpp: the same program - logging set up and used by a global object before '
-            'main, file sinks left unflushed at return/exit/qFatal - built against the library and header-only; exit status or signal, '
-            'stdout, stderr and the files left behind must be identical) and statically on the conditional compilation of the sources: '
+            'main, file sinks left unflushed at return/exit/qFatal, boundary arguments of the public constructors / configure() / sendToFile(): rotation limits '
+            '-1/0/1/2, the empty path, the empty pattern, null handler pointers - built against the library as the project\'s CMake build produces it '
+            '(-DQT_NO_DEBUG in the library only), header-only with default user flags (assertions live) and header-only with -DQT_NO_DEBUG / typical user flags; '
+            'exit status or signal, stdout, stderr and the files left behind must be identical) and statically on the conditional compilation of the sources: '
             'every #if/#ifdef group is observed with g++ -E in the library build (-DQTLOGGER_STATIC -DQTLOGGER_LIBRARY) and in a header-only '
             'user\'s build; a group that is entered in one and skipped in the other must be on the list of known switches '
             '(KNOWN_CONDITIONALS, a reason per entry); an extracted Gallina model of conditional groups / define / include / pragma once '
@@ -1560,7 +1562,9 @@ def run():
                             'header alone and the library sources are compiled (-fsyntax-only) without and with every single feature macro the '
                             'sources test and must agree (quick: library files that mention the macro; thorough: all library files); '
                             'whole-process programs: early phase (global constructor) / main phase / ending over the ops of harness/h_header_exit.cpp, '
-                            'fixed idioms first, then random; conditional groups: every translation unit of the library (each .cpp, the umbrella header as a '
+                            'fixed idioms first (incl. boundary arguments: maxFileCount -1/0/1/2, maxFileSize -1/0/1, empty path, empty pattern, null '
+                            'pointers), then random; every program runs as the library build with QT_NO_DEBUG in the library only (reference), header-only '
+                            'without and with QT_NO_DEBUG, header-only with typical user flags; conditional groups: every translation unit of the library (each .cpp, the umbrella header as a '
                             'library user sees it) and the generated header, without feature macros and with the combinable ones (thorough: each single one)',
                     'edits_applied': edit_kinds, 'exhaustive': False})
     chk.samples = samples + chk.samples
